@@ -1,7 +1,7 @@
 """C07 — definite misuse of configured builtin methods is reported on its line."""
 import json
 
-from lib import argscorr, calle2e
+from lib import argscorr, calle2e, callscen
 
 MANIFEST = {
     "text": "Theorems C07_* (Coq) prove, for every declared type and every fully known argument type, that the "
@@ -28,7 +28,7 @@ ASSUMPTIONS = ["a certainly-failing call is one whose count is outside the decla
 PARTIAL = ["C07_pinned_refuted: object of class L accepted for [K, NilClass] by the pre-fix code (fixed)",
            "rest arguments are not type-checked against the declared element type (ti's own golden tests "
            "3ef3d375/d9e690b4 expect that); generators keep rest parameters out of the end-to-end spec"]
-PARTS = [argscorr.part_check_arg_type, argscorr.part_check_args, calle2e.part_e2e("C07")]
+PARTS = [argscorr.part_check_arg_type, argscorr.part_check_args, calle2e.part_e2e("C07"), callscen.part_scenarios("C07")]
 
 
 def replay(path):
